@@ -74,9 +74,35 @@ def job_derive(job):
     return lines
 
 
+DERIVED_INVS = {"C06": ["InvSlice", "InvSliceSlice"], "C16": ["InvConvert"], "C09": ["InvSnapshotsRoundTrip"],
+                "C10": ["InvInteractionsRoundTrip"]}
+
+
+def mc_derived(chk, prop, tier):
+    """design level: the implementation-shaped models of the derived constructors (spec/MCDerived.tla)
+    satisfy the clauses of spec/Derived.tla in every reachable state of the bounded model"""
+    import os
+    if prop not in DERIVED_INVS:
+        return
+    cfg = "MC_derived_tiny.cfg" if tier == "quick" else "MC_derived_loops.cfg"
+    with open(os.path.join(tlc.SPEC, cfg)) as f:
+        lines = [ln for ln in f.read().splitlines() if not ln.startswith("INVARIANT")]
+    dst = os.path.join(tlc.SPEC, "_gen_%s_%s_%d.cfg" % (cfg[:-4], prop, os.getpid()))
+    with open(dst, "w") as f:
+        f.write("\n".join(lines + ["INVARIANT " + i for i in DERIVED_INVS[prop]]) + "\n")
+    try:
+        res = tlc.run_mc(dst, "MC_derived.tla", workers=16, timeout=3000)
+    finally:
+        os.remove(dst)
+    res["cfg"] = cfg
+    chk.add_mc(res, "%s: model of the derived constructor satisfies the Derived.tla clauses in every reachable state"
+               % ",".join(DERIVED_INVS[prop]))
+
+
 def run(prop, tier, seed):
     chk = Check(prop, tier, seed, prefixes=(prop,))
     rng = random.Random(seed)
+    mc_derived(chk, prop, tier)
     jobs = []
     nst = 0
     cfgs = ["MC_core_loops.cfg"] if tier == "quick" else ["MC_core_loops.cfg", "MC_core_small.cfg", "MC_core_3n.cfg"]
